@@ -2,6 +2,7 @@
 From Coq Require Import List String ZArith Bool Permutation Sorted.
 From SV Require Import Common.Prelude Model.Expr Model.Pipeline Model.Sweep Model.PipelineLib
   Gen.PipelineGen Proofs.Pipeline Proofs.Sweep.
+From SV Require Model.Linspace Proofs.Linspace.
 Import ListNotations.
 Local Open Scope string_scope.
 Local Open Scope list_scope.
@@ -142,6 +143,19 @@ Proof.
   destruct l as [|[] [|[] [|? ?]]]; try reflexivity; simpl in H; congruence.
 Qed.
 
+(* Linear ranges over binary64 (Model/Linspace.v = numpy.linspace as _materialize_sequences calls it; PrimFloat, bit-exact
+   correspondence on every run): one value per step; with the endpoint the last value is hi itself; every other value is
+   lo + i * ((hi - lo) / div) in IEEE arithmetic with numpy's association (div = steps - 1 with the endpoint, steps without) *)
+Theorem C03_range_length : forall lo hi num e, List.length (Linspace.linspace lo hi num e) = num.
+Proof. exact Proofs.Linspace.linspace_length. Qed.
+Theorem C03_range_endpoint : forall lo hi num d, 1 < num -> last (Linspace.linspace lo hi num true) d = hi.
+Proof. exact Proofs.Linspace.linspace_endpoint. Qed.
+Theorem C03_range_element : forall lo hi num e i d,
+  i < num -> (e = true -> S i < num \/ num = 1) ->
+  nth i (Linspace.linspace lo hi num e) d = Linspace.linspace_elem lo hi (if e then num - 1 else num) i.
+Proof. exact Proofs.Linspace.linspace_nth. Qed.
+Definition ex_range_descending := Proofs.Linspace.ex_descending.   (* 2, 1, 0, -1 and 0, 0.25, 0.5, 0.75 *)
+
 (* Non-vacuity *)
 Example ex_comb_order :
   iterate Comb false [("t", [VNum 1; VNum 2]); ("a", [VNum 7; VNum 8; VNum 9])] =
@@ -165,6 +179,9 @@ Example ex_computed_beats_provided :
       (DNone, []) = Done (DC [42; 126]%Z, [("f_values", VList [VNum 1; VNum 3])]).
 Proof. vm_compute. reflexivity. Qed.
 
+Print Assumptions C03_range_length.
+Print Assumptions C03_range_endpoint.
+Print Assumptions C03_range_element.
 Print Assumptions C03_published_values_probe_now.
 Print Assumptions C03_list_is_sequence_now.
 Print Assumptions C03_comb_sorted.
